@@ -98,8 +98,13 @@ theorem generate_ok (rx : String → String → Bool) (env : Env) (st : Recipe.S
         | error e => rw [hc] at h; cases h
         | ok u =>
           rw [hc] at h
-          simp only [Except.ok.injEq] at h
-          exact h.symm
+          simp only [] at h
+          cases hc2 : checkUnreadOwn env.model res with
+          | error e => rw [hc2] at h; cases h
+          | ok u2 =>
+            rw [hc2] at h
+            simp only [Except.ok.injEq] at h
+            exact h.symm
   · intro p s
     obtain ⟨sg, sIdx⟩ := p
     obtain ⟨qs0, res0⟩ := s
